@@ -851,6 +851,14 @@ pub fn sibling_cases() -> Vec<(String, String, Vec<i64>)> {
         format!("for sel in [option.some(option.some(115)), option.some(option.none), option.none] {{\nmatch sel {{\n.some(inner) -> match inner {{\n.some(x) -> {}\n.none -> {}\n}}\n.none -> {}\n}}\n}}\n", e("x"), e("x"), e("x")),
         vec![115, 101, 101],
     );
+    // a binder's own initialiser / iterable / scrutinee is outside the scope it opens: it reads the enclosing x
+    add("for x in range(x, x + 2): the iterable reads the enclosing x", format!("for x in range(x, x + 2) {{\n{}\n}}\n", e("x")), vec![101, 102]);
+    add("for (x, y) in [(x + 1, 1)]: the iterable reads the enclosing x", format!("for (x, y) in [(x + 1, 1)] {{\n{}\n}}\n", e("x + y")), vec![103]);
+    add("block: let x = x + 1 reads the enclosing x", format!("{{\nlet x = x + 1\n{}\n}}\n", e("x")), vec![102]);
+    add("match x + 1 {{ x -> .. }}: the scrutinee reads the enclosing x", format!("match x + 1 {{\nx -> {}\n}}\n", e("x")), vec![102]);
+    add("lambda parameter x applied to the enclosing x", format!("let f = (x: int) -> x + 1\n{}\n", e("f(x)")), vec![102]);
+    add("while body: let x = x + 1 on every iteration reads the enclosing x", format!("var w = 0\nwhile w < 2 {{\nw += 1\nlet x = x + w\n{}\n}}\n", e("x")), vec![102, 103]);
+    add("arm block: let x = x + 1 reads the enclosing x", format!("match 1 {{\n_ -> {{\nlet x = x + 1\n{}\n}}\n}}\n", e("x")), vec![102]);
     // every case ends by reading x again after all siblings have closed
     v.into_iter().map(|(n, b, mut x)| { x.push(101); (n, format!("let x = 101\n{b}vh_emit_int(x)\n"), x) }).collect()
 }
@@ -1038,7 +1046,7 @@ impl Prop for C21 {
              (qualified expression, qualified pattern on an inferred parameter, type annotation, qualified patterns on the result of a visible mk() / q.mk(); expected: unresolved-identifier diagnostic), one for an invisible mk, or a single program when the model finds a clash. \
              B (scopes): all chains of ≤ {} nested scopes from {:?} inside a function body (batched) and ≤ {} at top level (standalone), levels of non-x-binding scopes declare `let x` {{never, before, after}} the inner scope; \
              x is read innermost and after every scope closes; expected values from an environment-stack model. \
-             S (sibling scopes): a binding of x made in one arm / branch / block / loop / lambda / match must not be visible in a later sibling, which reads the enclosing x (arm patterns of several shapes, arm blocks, if/else branches, blocks, loops, lambdas, nested matches; each run so that the binding sibling executes first), in a function body and at top level. Every case is non-trivial (each checks at least one resolution); distinct by case name.",
+             S (sibling scopes): a binding of x made in one arm / branch / block / loop / lambda / match must not be visible in a later sibling, which reads the enclosing x (arm patterns of several shapes, arm blocks, if/else branches, blocks, loops, lambdas, nested matches; each run so that the binding sibling executes first), and a binder's own initialiser / iterable / scrutinee reads the enclosing x (for, let in a block, match scrutinee, lambda argument), in a function body and at top level. Every case is non-trivial (each checks at least one resolution); distinct by case name.",
             tier.pick("{f, Ty}", "{f, g, Ty}"),
             tier.pick("{{En}, {En,mk}} × {∅, {En,mk}}", "{∅, {En}, {En,mk}}²"),
             depth_fn(tier),
